@@ -40,6 +40,10 @@ def vec_calls(ig, live, var_name, method):
 
 def run(ctx):
     fb = ctx.fb
+    # ---------------------------------------------------------------- Q1 the queue this component re-sizes keeps tickets and rounds in step
+    # (the appender's initialize() relies on ConcurrentBoundedQueue::reserve_and_clear; the clause is C01.R11, evaluated on the queue instantiation used here)
+    import C01 as _C01
+    _C01.geometry_rebase(ctx, "C20.Q1", fb)
     # ---------------------------------------------------------------- R1 page return
     n1 = 0
     for fn in fb.find(pred=lambda f: f.record == APP and f.has_cfg() and not f.lambda_):
